@@ -30,10 +30,12 @@ GScalDec == \E b \in ScalInputs : Emit1([e |-> "ScalDec", in |-> b])
 GUrl == \/ \E s \in ByteStrings \cup SeqsUpTo({37, 47, 46, 65, 126}, 3), p \in BOOLEAN : Emit1([e |-> "UrlEnc", in |-> s, path |-> p])
         \/ \E s \in UrlInputs : Emit1([e |-> "UrlDec", in |-> s])
 GSums == \E x \in ByteStrings \cup {Check9}, k \in {"Sum8", "Sum16", "Crc16", "Crc32"} : Emit1([e |-> k, in |-> x])
+GSumBoundary == \/ \E x \in SumInputs16 : Emit1([e |-> "Sum16", in |-> x])
+                \/ \E x \in SumInputs8 : Emit1([e |-> "Sum8", in |-> x])
 GMd5 == \E i \in 1..Len(Md5Suite) : Emit1([e |-> "Md5", msg |-> Md5Suite[i][1], mode |-> IF Len(Md5Suite[i][1]) <= 30 THEN "all3" ELSE "all2", seed |-> 1])
 GAes == \E i \in 1..Len(AesSuite) : Emit1([e |-> "Aes", key |-> AesSuite[i][1], in |-> AesSuite[i][2]])
                                      \/ Emit1([e |-> "Aes", key |-> AesSuite[i][1], in |-> AesSuite[i][3]])
-GNext == hist = <<>> /\ (GB64Enc \/ GB64Dec \/ GHexEnc \/ GHexDec \/ GScalEnc \/ GScalDec \/ GUrl \/ GSums \/ GMd5 \/ GAes)
+GNext == hist = <<>> /\ (GB64Enc \/ GB64Dec \/ GHexEnc \/ GHexDec \/ GScalEnc \/ GScalDec \/ GUrl \/ GSums \/ GSumBoundary \/ GMd5 \/ GAes)
 GSpec == GInit /\ [][GNext]_gvars
 Emit == IF Len(hist) >= 1 THEN PrintT("BEH " \o ToJson(hist)) /\ FALSE ELSE TRUE
 =============================================================================
